@@ -14,6 +14,7 @@ class Registry(object):
         self.targets = []        # list of (prop, key, variant name)
         self.builders = {}
         self.ghost_concrete = {}
+        self.generators = {}
         self.findings_classes = {}
         self._spec_cache = {}
 
@@ -42,6 +43,10 @@ class Registry(object):
 
     def cls(self, key, fields, invariant=None):
         self.classes[key] = {'fields': dict(fields), 'invariant': invariant or []}
+
+    def generator(self, name, fn):
+        """fn(gen, rng[, ty]) -> JSON model of a random instance (used by pyvc.fuzz under /venv/bin/python)"""
+        self.generators[name] = fn
 
     def builder(self, clskey, fn):
         """fn(json_model, conv) -> real object; runs under /venv/bin/python in the replayer"""
